@@ -26,6 +26,7 @@ ASSUMPTIONS = [
     "binary numeric fields have size 2, 4 or 8 (the property's domain)",
 ]
 TRUSTED = []
+NOT_THEOREMS = ['character shape of float and date renderings (no blank inside a number; a date text starts in column 0): hypothesis of Props.C02.field_write_of_raw']
 EXHAUSTIVE = {"quick": True, "thorough": True}
 MARK = "abcdefghijklmnopqrstuvwxyz"
 
